@@ -253,6 +253,7 @@ def run_families(ctx, families, vecs, seen, name, **kw):
             nvec += 1
             continue
         ok = check_group(ctx, g, parts)
+        ctx.again(check_group, ctx, g, parts)
         ctx.replayed += 1
         if ok and (len(g[1]) > 1 or g[1][0][0] in ('transfer_ticket', 'reveal')):
             ctx.sample({'group': R.group_json(g), 'forged': b.hex()}, limit=4)
@@ -284,6 +285,7 @@ def run(ctx):
         run_families(ctx, ['hdr'], vecs, seen, 'OpForge_hdr', hdr=(1, 2, 3, 4, 5, 6, 7, 8, 9))
         run_families(ctx, ['tx'], vecs, seen, 'OpForge_tx', ntx=4)
         run_families(ctx, ['mix'], vecs, seen, 'OpForge_mix', maxlen=3)
+    ctx.second_pass()
     ctx.exhaustive = True
 
 
